@@ -67,14 +67,33 @@ impl<'a, T: Read + Seek> QueueReader<'a, T> {
             return 0;
         }
 
+        // Records with a bit size of zero have no queue entries if there are other records,
+        // their constant value is generated when a point is requested.
         let mut av = usize::MAX;
-        for q in &self.queues {
+        for (i, q) in self.queues.iter().enumerate() {
             let len = q.len();
-            if len < av {
+            if len < av && (self.constant(i).is_none() || self.all_constant()) {
                 av = len;
             }
         }
         av
+    }
+
+    /// Returns the value of a record with a bit size of zero.
+    /// That is only possible for min=max and all values must be equal to min.
+    fn constant(&self, index: usize) -> Option<RecordValue> {
+        match self.pc.prototype[index].data_type {
+            RecordDataType::Integer { min, max } if min == max => Some(RecordValue::Integer(min)),
+            RecordDataType::ScaledInteger { min, max, .. } if min == max => {
+                Some(RecordValue::ScaledInteger(min))
+            }
+            _ => None,
+        }
+    }
+
+    /// True if all records have a bit size of zero.
+    fn all_constant(&self) -> bool {
+        (0..self.pc.prototype.len()).all(|i| self.constant(i).is_some())
     }
 
     /// Return values for the next point by popping one value from each queue.
@@ -82,9 +101,12 @@ impl<'a, T: Read + Seek> QueueReader<'a, T> {
     pub fn pop_point(&mut self, output: &mut RawValues) -> Result<()> {
         output.clear();
         for i in 0..self.pc.prototype.len() {
-            let value = self.queues[i]
-                .pop_front()
-                .internal_err("Failed to pop value for next point")?;
+            let value = match self.queues[i].pop_front() {
+                Some(value) => value,
+                None => self
+                    .constant(i)
+                    .internal_err("Failed to pop value for next point")?,
+            };
             output.push(value);
         }
         Ok(())
@@ -147,25 +169,10 @@ impl<'a, T: Read + Seek> QueueReader<'a, T> {
                     self.byte_streams[i].append(&self.buffer);
                 }
 
-                // Find smallest number of expected items in any queue after stream unpacking.
-                // This is required for the corner case when the bit size of an record
-                // is zero and we don't know how many items to "unpack" from an empty buffer.
-                // This happens for example with integer values where min=max, because all values are equal.
-                let mut min_queue_size = usize::MAX;
-                for (i, bs) in self.byte_streams.iter().enumerate() {
-                    let bit_size = self.pc.prototype[i].data_type.bit_size();
-                    // We can only check records with a non-zero bit size
-                    if bit_size != 0 {
-                        let bs_items = bs.available() / bit_size;
-                        let queue_items = self.queues[i].len();
-                        let items = bs_items + queue_items;
-                        if items < min_queue_size {
-                            min_queue_size = items;
-                        }
-                    }
-                }
-
-                self.parse_byte_streams(min_queue_size)?;
+                // Records with a bit size of zero are not unpacked, see pop_point() and available().
+                // Creating a value for every point of the packet in every one of these queues would
+                // need memory proportional to the product of record and point count.
+                self.parse_byte_streams(0)?;
             }
         };
 
